@@ -170,3 +170,26 @@ func verifH_C13_branch_defaults() {
 	verifAssert(reflect.DeepEqual(o, want), "C13 branch defaults: only the matching branch's default is applied; nothing else changes")
 	verifReach("end")
 }
+
+//verif:harness id=C13 tier=quick,thorough witness=end bounds="defaults below `not`: schema {type: object, not: {required: [zz], properties: {inj: {default D}}}} (also with the not-schema below allOf) x value {x: number} with or without inj; VisitAsRequest + DefaultsSet: the value validates (it does not match the not-schema) and is left exactly as it was: a schema that must NOT match contributes no defaults"
+func verifH_C13_not_defaults() {
+	d := verifFiniteFloat("D")
+	notSchema := &Schema{Type: &Types{"object"}, Required: []string{"zz"}, Properties: Schemas{"inj": {Value: &Schema{Type: &Types{"number"}, Default: d}}}}
+	s := &Schema{Type: &Types{"object"}}
+	if verifChoose("below", 2) == 0 {
+		s.Not = &SchemaRef{Value: notSchema}
+	} else {
+		s.AllOf = SchemaRefs{{Value: &Schema{Not: &SchemaRef{Value: notSchema}}}}
+	}
+	v := map[string]any{"x": verifFiniteFloat("x")}
+	if verifChoose("hasInj", 2) == 1 {
+		v["inj"] = verifFiniteFloat("inj")
+	}
+	before := verifCopyJSON(v)
+	calls := 0
+	err := s.VisitJSON(v, VisitAsRequest(), DefaultsSet(func() { calls++ }))
+	verifAssert(err == nil, "C13 not-defaults: a value that does not match the not-schema validates")
+	verifAssert(reflect.DeepEqual(any(v), before), "C13 not-defaults: defaults of a schema that must not match are never applied")
+	verifAssert(calls == 0, "C13 not-defaults: the defaults-set callback does not fire")
+	verifReach("end")
+}
